@@ -71,15 +71,15 @@ type Stats struct {
 }
 
 type Msg struct {
-	T        string  `json:"t"`
-	I        int     `json:"i,omitempty"`
-	Replay   *Replay `json:"replay,omitempty"`
-	Stats    *Stats  `json:"stats,omitempty"`
-	Hash     string  `json:"hash,omitempty"`
-	Repro    bool    `json:"repro,omitempty"`
-	Text     string  `json:"text,omitempty"`
-	Last     int     `json:"last,omitempty"`
-	TimedOut bool    `json:"timed_out,omitempty"`
+	T        string          `json:"t"`
+	I        int             `json:"i,omitempty"`
+	Replay   *Replay         `json:"replay,omitempty"`
+	Stats    *Stats          `json:"stats,omitempty"`
+	Hash     string          `json:"hash,omitempty"`
+	Repro    bool            `json:"repro,omitempty"`
+	Text     string          `json:"text,omitempty"`
+	Last     int             `json:"last,omitempty"`
+	TimedOut bool            `json:"timed_out,omitempty"`
 	Info     json.RawMessage `json:"info,omitempty"`
 }
 
@@ -368,10 +368,22 @@ func runCheck(prop, tier string, only, casesOverride, budgetOverride int) int {
 		budget = budgetOverride
 	}
 	W := numWorkers()
-	deadline := time.Now().Add(time.Duration(budget) * time.Second).Unix()
 	extraEnv := []string{"VERIF_REPO=" + repoRoot, "GOMAXPROCS=2"}
+	type pool struct {
+		bin string
+		env []string
+	}
+	pools := []pool{{bi.Bin, extraEnv}}
 	if raceBin != "" {
-		extraEnv = append(extraEnv, "VERIF_RACE_BIN="+raceBin, "GORACE=halt_on_error=1 exitcode=66")
+		raceLog := filepath.Join(verifRoot, "build", prop+"-race", "racelog")
+		if old, _ := filepath.Glob(raceLog + ".*"); len(old) > 0 {
+			for _, o := range old {
+				os.Remove(o)
+			}
+		}
+		raceEnv := []string{"VERIF_REPO=" + repoRoot, "GOMAXPROCS=4", "VERIF_NO_RLIMIT=1", "VERIF_RACE_LOG=" + raceLog, "GORACE=log_path=" + raceLog + " halt_on_error=0 history_size=2"}
+		pools = append(pools, pool{raceBin, raceEnv})
+		budget = budget / 2
 	}
 
 	type agg struct {
@@ -430,33 +442,37 @@ func runCheck(prop, tier string, only, casesOverride, budgetOverride int) int {
 			}
 		}
 	}
-	for w := 0; w < W; w++ {
-		wg.Add(1)
-		go func(w int) {
-			defer wg.Done()
-			from := 0
-			for restarts := 0; restarts < 25; restarts++ {
-				job := Job{Mode: "run", Prop: prop, Tier: tier, Seed: seed, Worker: w, Workers: W, From: from, To: casesOverride, Deadline: deadline, Known: knownSigs, Only: only, MaxViol: 3}
-				r := runWorker(bi.Bin, job, extraEnv, 180*time.Second)
-				merge(r)
-				if !r.died {
-					return
+	for _, pl := range pools {
+		pl := pl
+		deadline := time.Now().Add(time.Duration(budget) * time.Second).Unix()
+		for w := 0; w < W; w++ {
+			wg.Add(1)
+			go func(w int) {
+				defer wg.Done()
+				from := 0
+				for restarts := 0; restarts < 25; restarts++ {
+					job := Job{Mode: "run", Prop: prop, Tier: tier, Seed: seed, Worker: w, Workers: W, From: from, To: casesOverride, Deadline: deadline, Known: knownSigs, Only: only, MaxViol: 3}
+					r := runWorker(pl.bin, job, pl.env, 180*time.Second)
+					merge(r)
+					if !r.died {
+						return
+					}
+					mu.Lock()
+					if r.hung {
+						a.hung = true
+					}
+					a.deaths = append(a.deaths, fmt.Sprintf("worker %d died at case %d: %s\n%s", w, r.lastCase, r.exitErr, clip(r.stderr, 4000)))
+					a.deathCase = append(a.deathCase, r.lastCase)
+					mu.Unlock()
+					if r.lastCase < 0 || only >= 0 {
+						return
+					}
+					from = r.lastCase + 1
 				}
-				mu.Lock()
-				if r.hung {
-					a.hung = true
-				}
-				a.deaths = append(a.deaths, fmt.Sprintf("worker %d died at case %d: %s\n%s", w, r.lastCase, r.exitErr, clip(r.stderr, 4000)))
-				a.deathCase = append(a.deathCase, r.lastCase)
-				mu.Unlock()
-				if r.lastCase < 0 || only >= 0 {
-					return
-				}
-				from = r.lastCase + 1
-			}
-		}(w)
+			}(w)
+		}
+		wg.Wait()
 	}
-	wg.Wait()
 
 	// ---- supervise worker deaths -------------------------------------------------
 	exit := 0
@@ -515,11 +531,13 @@ func runCheck(prop, tier string, only, casesOverride, budgetOverride int) int {
 		if rp.Violation.Oracle != "process-death" {
 			confirmed = false
 			for try := 0; try < 3 && !confirmed; try++ {
-				rr := runWorker(bi.Bin, Job{Mode: "replay", Replay: path, Only: -1}, extraEnv, 180*time.Second)
-				if rr.done != nil && rr.done.Repro {
-					confirmed = true
-				} else if rr.died && prop == "C08" {
-					confirmed = true
+				for _, pl := range pools {
+					rr := runWorker(pl.bin, Job{Mode: "replay", Replay: path, Only: -1}, pl.env, 180*time.Second)
+					if rr.done != nil && rr.done.Repro {
+						confirmed = true
+					} else if rr.died && prop == "C08" {
+						confirmed = true
+					}
 				}
 			}
 		}
@@ -568,28 +586,28 @@ func runCheck(prop, tier string, only, casesOverride, budgetOverride int) int {
 		runsPerHour = float64(a.stats.Runs) / wall * 3600
 	}
 	cover := map[string]interface{}{
-		"evaluations":         a.stats.Evaluations,
-		"distinct_nontrivial": len(distinct),
-		"rule":                info.Rule,
-		"samples":             samples,
-		"exhaustive":          false,
-		"simulated_runs":      a.stats.Runs,
-		"simulated_runs_per_hour": int64(runsPerHour),
-		"seeds":               []uint64{seed},
-		"logical_steps":       a.stats.Steps,
+		"evaluations":               a.stats.Evaluations,
+		"distinct_nontrivial":       len(distinct),
+		"rule":                      info.Rule,
+		"samples":                   samples,
+		"exhaustive":                false,
+		"simulated_runs":            a.stats.Runs,
+		"simulated_runs_per_hour":   int64(runsPerHour),
+		"seeds":                     []uint64{seed},
+		"logical_steps":             a.stats.Steps,
 		"filesystem_and_stream_ops": a.stats.Ops,
-		"simulated_time":      "not applicable: gopatch has no clocks or timers; progress is measured in logical steps (yield points) and environment operations",
-		"faults_fired":        a.stats.Faults,
-		"probes":              a.stats.Probes,
-		"required_probes_missing": missing,
-		"yield_sites_hit":     sitesHit,
-		"yield_sites_total":   bi.Sites,
-		"real_components":     info.RealCode,
-		"stub_components":     info.Stubs,
-		"known_findings_hit":  a.stats.Known,
-		"workers":             W,
-		"budget_exhausted":    a.timedOut,
-		"worker_deaths":       len(a.deaths),
+		"simulated_time":            "not applicable: gopatch has no clocks or timers; progress is measured in logical steps (yield points) and environment operations",
+		"faults_fired":              a.stats.Faults,
+		"probes":                    a.stats.Probes,
+		"required_probes_missing":   missing,
+		"yield_sites_hit":           sitesHit,
+		"yield_sites_total":         bi.Sites,
+		"real_components":           info.RealCode,
+		"stub_components":           info.Stubs,
+		"known_findings_hit":        a.stats.Known,
+		"workers":                   W,
+		"budget_exhausted":          a.timedOut,
+		"worker_deaths":             len(a.deaths),
 	}
 	ev := map[string]interface{}{
 		"property_id": prop,
@@ -699,7 +717,15 @@ func runReplay(path string) int {
 		if err != nil {
 			fatal2("race build: %v", err)
 		}
-		extraEnv = append(extraEnv, "VERIF_RACE_BIN="+rb.Bin, "GORACE=halt_on_error=1 exitcode=66")
+		abs, _ := filepath.Abs(path)
+		raceLog := filepath.Join(verifRoot, "build", prop+"-race", "racelog-replay")
+		raceEnv := []string{"VERIF_REPO=" + repoRoot, "GOMAXPROCS=4", "VERIF_NO_RLIMIT=1", "VERIF_RACE_LOG=" + raceLog, "GORACE=log_path=" + raceLog + " halt_on_error=0 history_size=2"}
+		rr := runWorker(rb.Bin, Job{Mode: "replay", Replay: abs, Only: -1}, raceEnv, 180*time.Second)
+		if rr.done != nil && rr.done.Repro {
+			fmt.Print(rr.done.Text)
+			fmt.Printf("VIOLATION property=%s replay=%s\n", prop, abs)
+			return 1
+		}
 	}
 	abs, _ := filepath.Abs(path)
 	r := runWorker(bi.Bin, Job{Mode: "replay", Replay: abs, Only: -1}, extraEnv, 180*time.Second)
